@@ -33,3 +33,33 @@ check('C13',
   'Rejection: all 22.8 k method-name strings (<=4 letters over a 12-symbol alphabet plus variants of the 9 names), handler counts 0..70 through every registration path, nil handlers, late options, and ~600 structured patterns (capturing group at every position of a variable regex, optional part not at the end, uncompilable regex) - each invalid by construction - must panic in the registration call. Totality: ALL pattern strings of <=5 (thorough 6) tokens over 15 tokens (0.8 M / 12 M) are offered to registration and every accepted one is matched against short and special path strings and method strings through Match and ServeHTTP, with all options off and all on; none may panic.',
   'Garbage patterns are never classified (only lookup totality is required of them). Over-rejection (a valid control refused) is not a violation of the statement and is only counted.',
   'DESIGN.md 5 C13')
+check('C04',
+  'bounded exhaustive enumeration of registration programs and handler-behaviour vectors against a cursor-free chain interpreter',
+  'All registration programs of <=4 (thorough 5) statements over Use/Group/Route(+later Route.Use)/NotFound/NotAllowed with nesting <=3 (66 k / 1.5 M programs) are registered on a real router; one request per route plus a 404 and a 405 request is served and the enter/leave trace of the instrumented handlers must equal the trace computed by a registration-program model and a chain interpreter that has no cursor arithmetic. All behaviour vectors over {no Next, Next once, Next twice} for n<=6 (7) handlers x all global/group/route splits, and chains of 22..63 handlers with <=2 deviating positions, are run the same way.',
+  'Bounded program size and chain alphabets; near-limit chains by deviation bounding (uniform behaviour + <=2 deviations), not by a full product.',
+  'DESIGN.md 5 C04')
+check('C05',
+  'bounded exhaustive enumeration of abort behaviours per chain position against a chain interpreter with an abort flag',
+  'All vectors over 10 handler behaviours (Abort / AbortThen / AbortWithStatus before, after or without Next, write-then-Next, probes of IsAborted) for chains of n<=4 (thorough 5) x every global/group/route split, n=5 and chains of 33..63 handlers by deviation bounding with the aborting handler at every position: event-by-event equality of the observed trace (handler starts, leaves, every IsAborted sample) and of the response status with the interpreter.',
+  'Chains stay within the documented limit (62 middleware + main). Global middleware is not counted by any registration check (L1 in DESIGN) and such over-long chains are not generated.',
+  'DESIGN.md 5 C05')
+check('C08',
+  'depth-bounded exhaustive search over writer operation sequences with enumerated environment answers (short write / error) against a writer specification',
+  'ALL operation sequences of length <=4 (thorough 5) over 14 operations x every split over middleware-before/main/middleware-after x every assignment of <=2 faulty answers to the underlying writes, and length 5 (6) with <=1 fault: the complete event log of a recording ResponseWriter+Flusher (WriteHeader calls with code and header snapshot, accepted bytes, flushes), the body and Length() must equal a 20-line specification.',
+  'Operation and status alphabets are fixed; the recording writer stands in for a real connection. Hijack is not exercised.',
+  'DESIGN.md 5 C08')
+check('C09',
+  'bounded exhaustive enumeration of panic positions, values, hook behaviours and follow-up requests with a fresh-router twin as oracle',
+  'Every chain shape n<=3 (thorough 4) x split x panic position x {before/after/without Next} x panic value x hook variant x PanicsHandler x committed-before-panic, and panics inside NotFound/NotAllowed/OnError handlers: containment (no escape with a hook, identical value re-panics without), hook runs once and sees the value, nothing starts after the panic, exactly one WriteHeader with the hook status/body; then each of 15 follow-up request kinds must observe what it observes on a router that never saw the panic.',
+  'For the in-chain PanicsHandler middleware only non-escape and healthy follow-ups are asserted.',
+  'DESIGN.md 5 C09')
+check('C10',
+  'bounded exhaustive enumeration of request histories with a fresh-router twin as differential oracle',
+  'All histories of length <=3 (thorough 4) over 15 request kinds (every context mutation a handler can perform, 404, 405, panic, HandleContext re-dispatch, nested ServeHTTP, Copy) x 8 router configurations: the probe snapshot (Data, Params, Errors, abort state, status, length, chain length, writer and request identity) and the response of the last request equal those of the same request issued first on a fresh identical router. Reuse of a pooled context is counted by pointer identity (all but the first request of a history run on a reused context).',
+  'Uses the real sync.Pool (reuse is observed, not forced); the controlled pool of C03 forces it.',
+  'DESIGN.md 5 C10')
+check('C12',
+  'bounded exhaustive enumeration of registration programs with nested groups against a registration-program model',
+  'All programs of <=4 (thorough 5) statements, nesting <=3, over Use / Group (prefixes with and without leading slash, 0..2 middleware, also passed with spare slice capacity) / Route / Controller / Resource (289 k programs quick): every route is reachable exactly under the concatenated prefixes (and not without them), carries exactly the modelled middleware (count and request trace), Routes() holds nothing else, and a sentinel route registered after every top-level statement has no prefix and no group middleware.',
+  'Clean non-root prefixes as the statement says; program size bounded.',
+  'DESIGN.md 5 C12')
